@@ -410,6 +410,42 @@ def run_case(g, idx, budget, tap, res):
     return out, case, (len(pts) >= 10 and rows >= 3)
 
 
+def exact_multiple_rectangles(g, shard, res):
+    """Rectangles whose sides are exact multiples k s, m s of the spacing (k, m from 1: the lot may be exactly one spacing wide), at
+    rotation 0: exactly the (k+1) x (m+1) lattice.  Spacings are multiples of 1/4 m so that k s is exact in floating point."""
+    import itertools
+
+    import ghedesigner.rowwise as rw
+
+    out = []
+    s = float(int(g.integers(20, 101))) / 4.0
+    for k, m in itertools.product(range(1, 5), range(1, 5)):
+        if (k * 4 + m + shard) % 2:
+            continue
+        ox, oy = (0.0, 0.0) if (k + m) % 3 == 0 else (float(g.integers(0, 40)), float(g.integers(0, 40)))
+        W, Hh = k * s, m * s
+        poly = [[ox, oy], [ox + W, oy], [ox + W, oy + Hh], [ox, oy + Hh]]
+        rot_ = int(g.integers(0, 4))
+        poly = poly[rot_:] + poly[:rot_]
+        if g.random() < 0.3:
+            poly = poly[::-1]
+        case = {"outline": poly, "spacing": s, "multiples": [k, m], "lane": "exact-multiple rectangle at rotation 0"}
+        try:
+            pb, _ = rw.gen_shape([list(p) for p in poly], None)
+            r0 = np.asarray(rw.gen_borehole_config(pb, s, s, no_go=None, rotate=0, intersection_tolerance=1e-5), dtype=float).reshape(-1, 2)
+        except Exception as e:  # noqa: BLE001
+            out.append({"mechanism": f"rectangle-generation-raised:{type(e).__name__}", "message": f"{W} x {Hh} lot, spacing {s}: {str(e)[:120]}", "case": case})
+            continue
+        res["exact_multiple_rectangles"] = res.get("exact_multiple_rectangles", 0) + 1
+        exp = sorted((ox + i * s, oy + j * s) for j in range(m + 1) for i in range(k + 1))
+        got = sorted(map(tuple, np.round(r0, 9)))
+        if len(got) != len(exp):
+            out.append({"mechanism": "rectangle-not-the-expected-lattice", "message": f"{W} x {Hh} lot ({k} x {m} spacings of {s} m): {len(got)} boreholes, expected ({k}+1) x ({m}+1) = {len(exp)}", "case": case})
+        elif max(abs(a - b) for g_, e_ in zip(got, exp) for a, b in zip(g_, e_)) > 1e-6:
+            out.append({"mechanism": "rectangle-not-the-expected-lattice", "message": f"{W} x {Hh} lot ({k} x {m} spacings of {s} m): boreholes off the lattice", "case": case})
+    return out
+
+
 def run_shard(spec):
     g = rng(spec["seed"], PROP, spec["shard"])
     budget = StepBudget()
@@ -432,6 +468,9 @@ def run_shard(spec):
             res["viol"].extend(out[:4])
             if not res["samples"] and nt:
                 res["samples"].append(case)
+        # (the random stream of the lots above is left as it was: this lane draws from its own generator)
+        for _rep in range(max(1, spec["n"] // 24)):
+            res["viol"].extend(exact_multiple_rectangles(rng(spec["seed"], PROP + "-exact-rect", spec["shard"] * 1000 + _rep), spec["shard"], res)[:4])
     finally:
         res["line_events"] = budget.total
         res["gen_hits"] = tap.hits
@@ -452,7 +491,8 @@ def check(tier, seed):
         "sides), spacing 5-25 m, rotation windows inside [-90, 90] deg with steps 0.5-15 deg, every 5th with a perimeter ratio, every 7th with a "
         "convex no-go zone strictly inside; the real field_optimization_fr / field_optimization_wp_space_fr run under a logical step budget "
         "(LINE events, 400 (area/s^2 + perimeter/s + 20) per rotation plus a quadratic allowance for duplicate removal). Degenerate lots "
-        "(extent normal to a tried row direction < 1.001 s) are counted, not judged. non-trivial = returned field with >= 3 rows and >= 10 boreholes."
+        "(extent normal to a tried row direction < 1.001 s) are counted, not judged. Separate lane: rectangles of exactly k x m spacings (k, m = 1..4, "
+        "spacings in quarter metres) at rotation 0 must give the (k+1) x (m+1) lattice. non-trivial = returned field with >= 3 rows and >= 10 boreholes."
     )
     ok_mon = True
     for r in results:
@@ -461,7 +501,7 @@ def check(tier, seed):
             continue
         rep.evaluations += r["cases"]
         ok_mon = ok_mon and r["monitoring"]
-        for k in ("skipped_degenerate", "translations", "rectangles", "rect_near_tie_skipped", "line_events", "gen_hits", "perimeter", "nogo", "multi_nogo", "paired_narrow_nogo"):
+        for k in ("skipped_degenerate", "translations", "rectangles", "rect_near_tie_skipped", "line_events", "gen_hits", "perimeter", "nogo", "multi_nogo", "paired_narrow_nogo", "exact_multiple_rectangles"):
             rep.count(k, r.get(k, 0))
         rep.count("whole_number_outlines_passed_as_ints", r.get("int_outlines", 0))
         rep.count("translation_clause_skipped_for_whole_number_polygons", r.get("translation_skipped_whole_number_polygon", 0))
